@@ -254,3 +254,17 @@ package ast
 //@   modifies self.p
 //@   ensures result == 0 ==> (old(self.p) < self.p && self.p <= len(self.s) && self.s[self.p - 1] == 0x5b && (forall k int :: (old(self.p) <= k && k < self.p - 1) ==> utils.isSp(self.s[k])))
 //@   ensures result != 0 ==> self.p == old(self.p)
+
+// decodeNull/True/False: accept exactly the four/five bytes of the literal at pos.
+//@ func decodeNull props C02,C07
+//@   requires 0 <= pos && pos <= len(src)
+//@   ensures ret >= 0 <==> (pos + 4 <= len(src) && src[pos] == 0x6e && src[pos + 1] == 0x75 && src[pos + 2] == 0x6c && src[pos + 3] == 0x6c)
+//@   ensures ret >= 0 ==> ret == pos + 4
+//@ func decodeTrue props C02,C07
+//@   requires 0 <= pos && pos <= len(src)
+//@   ensures ret >= 0 <==> (pos + 4 <= len(src) && src[pos] == 0x74 && src[pos + 1] == 0x72 && src[pos + 2] == 0x75 && src[pos + 3] == 0x65)
+//@   ensures ret >= 0 ==> ret == pos + 4
+//@ func decodeFalse props C02,C07
+//@   requires 0 <= pos && pos <= len(src)
+//@   ensures ret >= 0 <==> (pos + 5 <= len(src) && src[pos] == 0x66 && src[pos + 1] == 0x61 && src[pos + 2] == 0x6c && src[pos + 3] == 0x73 && src[pos + 4] == 0x65)
+//@   ensures ret >= 0 ==> ret == pos + 5
